@@ -132,6 +132,9 @@ def run_json(spec, acc):
             acc.case((d.id, payload, k % 3 == 0))
             w = {"definition": m.id, "payload_hex": payload.to_bytes(nb, "little").hex(), "label": label, "with_identity": k % 3 == 0}
             check_message(m, enc, acc, w)
+            # once more on the same object: by now it has been encoded (by-id lookups done); what to_json() emits
+            # must still parse back into an equivalent, re-encodable message
+            check_message(m, enc, acc, dict(w, label=str(label) + " (second pass, after encode)"))
             for f in m.fields:
                 acc.cover("value_types", type(f.value).__name__)
         if len(acc.samples) < 3:
